@@ -12,6 +12,16 @@ func (p *watPrinter) printExport() error {
 	if len(p.m.Exports) == 0 {
 		return nil
 	}
+
+	// (func $f (export "f") ...): the parser also records such an export in m.Exports;
+	// it is printed together with the function.
+	inlineFuncExports := make(map[[2]string]bool)
+	for _, fn := range p.m.Funcs {
+		if fn.ExportName != "" {
+			inlineFuncExports[[2]string{fn.ExportName, fn.Name}] = true
+		}
+	}
+
 	for _, e := range p.m.Exports {
 		switch e.Kind {
 		case token.GLOBAL:
@@ -19,7 +29,12 @@ func (p *watPrinter) printExport() error {
 				p.indent, e.Name, watPrinter_identOrIndex(e.GlobalIdx),
 			)
 		case token.FUNC:
-			// skip
+			if inlineFuncExports[[2]string{e.Name, e.FuncIdx}] {
+				continue
+			}
+			fmt.Fprintf(p.w, `%s(export "%s" (func %s))`+"\n",
+				p.indent, e.Name, watPrinter_identOrIndex(e.FuncIdx),
+			)
 		case token.MEMORY:
 			fmt.Fprintf(p.w, `%s(export "%s" (memory %s))`+"\n",
 				p.indent, e.Name, watPrinter_identOrIndex(e.MemoryIdx),
